@@ -1,1 +1,65 @@
 // Kani harnesses compiled into the real crate under cfg(kani); see /verif/DESIGN.md 2.2
+#![allow(dead_code, unused_imports)]
+use super::*;
+
+/// K09 (C08/C05): the S2K usage octet (RFC 9580 3.7.2.1 / 5.5.3: 0 unprotected, 253 AEAD, 254 CFB,
+/// 255 MalleableCFB, any other value a symmetric cipher id = LegacyCFB) is mapped by
+/// `S2kUsage::from(u8)` to exactly that class for every octet, and `u8::from(&S2kParams)` of the
+/// parameters of that class gives the octet back: the map is a bijection on the usage octet.
+/// Complete: loop-free over all 256 octets (variant contents are cheap dummies: the octet does
+/// not depend on them).
+#[kani::proof]
+fn k09_s2k_usage_octet_bijection() {
+    let v: u8 = kani::any();
+    let usage = S2kUsage::from(v);
+    let s2k = StringToKey::Simple { hash_alg: HashAlgorithm::Sha256 };
+    let params = match usage {
+        S2kUsage::Unprotected => {
+            assert!(v == 0, "usage octet != 0 classified as unprotected");
+            S2kParams::Unprotected
+        }
+        S2kUsage::LegacyCfb(sym_alg) => {
+            assert!(v >= 1 && v <= 252, "usage octet outside 1..=252 classified as LegacyCfb");
+            assert!(u8::from(sym_alg) == v, "LegacyCfb cipher id differs from the usage octet");
+            S2kParams::LegacyCfb { sym_alg, iv: Bytes::new() }
+        }
+        S2kUsage::Aead => {
+            assert!(v == 253, "usage octet != 253 classified as AEAD");
+            S2kParams::Aead { sym_alg: SymmetricKeyAlgorithm::AES256, aead_mode: AeadAlgorithm::Ocb, s2k, nonce: Bytes::new() }
+        }
+        S2kUsage::Cfb => {
+            assert!(v == 254, "usage octet != 254 classified as CFB");
+            S2kParams::Cfb { sym_alg: SymmetricKeyAlgorithm::AES256, s2k, iv: Bytes::new() }
+        }
+        S2kUsage::MalleableCfb => {
+            assert!(v == 255, "usage octet != 255 classified as MalleableCFB");
+            S2kParams::MalleableCfb { sym_alg: SymmetricKeyAlgorithm::AES256, s2k, iv: Bytes::new() }
+        }
+    };
+    let back = u8::from(&params);
+    kani::cover!(v == 252 && back == 252);
+    kani::cover!(v == 253 && back == 253);
+    assert!(back == v, "u8::from(&S2kParams) differs from the usage octet it was parsed from");
+    std::mem::forget(params); // dropping `Bytes` (vtable call) is not part of the property
+}
+
+/// K09: the octet of the protected classes does not depend on the cipher stored inside
+/// (a cipher id never leaks into the usage octet of AEAD / CFB / MalleableCFB).
+#[kani::proof]
+fn k09_s2k_params_octet_independent_of_cipher() {
+    let c: u8 = kani::any();
+    let which: u8 = kani::any();
+    let sym_alg = SymmetricKeyAlgorithm::from(c);
+    let s2k = StringToKey::Simple { hash_alg: HashAlgorithm::Sha256 };
+    let (params, want) = if which == 0 {
+        (S2kParams::Aead { sym_alg, aead_mode: AeadAlgorithm::Gcm, s2k, nonce: Bytes::new() }, 253u8)
+    } else if which == 1 {
+        (S2kParams::Cfb { sym_alg, s2k, iv: Bytes::new() }, 254u8)
+    } else {
+        (S2kParams::MalleableCfb { sym_alg, s2k, iv: Bytes::new() }, 255u8)
+    };
+    let got = u8::from(&params);
+    kani::cover!(which == 1 && c == 9);
+    assert!(got == want, "usage octet of a protected class depends on its content");
+    std::mem::forget(params);
+}
